@@ -1,19 +1,38 @@
 import importlib.util, os
 _p = os.path.join(os.path.dirname(os.path.dirname(os.path.abspath(__file__))), "C07", "plan.py")
 _s = importlib.util.spec_from_file_location("plan_C07_for_C06", _p); _m = importlib.util.module_from_spec(_s); _s.loader.exec_module(_m)
+
+SH = "tracing-subscriber/src/registry/sharded.rs"
+def gen_parent_resolution(repo):
+    """T4 prefix of Registry::new_span: the `let parent = ...;` statement, with `self` renamed to a generic receiver that
+    offers the two operations the statement uses (current_span, clone_span).  Everything after it (the slab entry that
+    stores `parent`) is dropped - sharded_slab is out of Kani's reach."""
+    import re
+    from vlib import extract
+    ex = extract.Extractor(repo)
+    body = ex.fn_body(SH, r"fn new_span\(&self, attrs: &span::Attributes<'_>\) -> span::Id", within=r"impl Collect for Registry")
+    prefix, _ = ex.split_after(body, "let parent =")
+    prefix = re.sub(r"\bself\.", "self_.", prefix)
+    if re.search(r"\bself\b", prefix):
+        raise extract.AnchorLost("extracted parent-resolution statement uses `self` other than as a method receiver")
+    return ("\n// ---- mechanically extracted from " + SH + " (T4 prefix of Registry::new_span; `self.` -> `self_.`) ----\n"
+            "pub(crate) trait VParentOps { fn current_span(&self) -> tracing_core::span::Current; fn clone_span(&self, id: &span::Id) -> span::Id; }\n"
+            "fn __extracted_resolve_parent<R: VParentOps>(self_: &R, attrs: &span::Attributes<'_>) -> Option<span::Id> {\n" + prefix + "\n    parent\n}\n")
+
+
 PLAN = dict(
     id="C06", level="other", explanation="SpanStack (the per-thread entered-span stack of the registry) is checked against an executable spec model for every history of up to 4 enter/exit operations over 3 ids: push/pop return values, the exact stack contents (pop removes the LAST matching entry, others keep their order), current() = most recently entered and not yet exited, iteration newest-first without duplicates. Scope / SpanRef::parent / Context::span / from_root / event_span / lookup_current are checked over a stub LookupSpan collector with a symbolic 4-span table (every acyclic parent relation, arbitrary per-span filter bits, arbitrary filter mask): the scope is exactly the chain of accepted ancestors leaf to root, from_root its reverse, parent the nearest accepted ancestor, contextual events take the collector's current span and explicit parent / explicit root override it. All bounded (stated); the registry glue is assumed.",
-    functions_under_contract=['tracing-subscriber/src/registry/stack.rs: SpanStack::{push,pop,iter,current}', 'registry/mod.rs: Iterator for Scope, Scope::from_root, SpanRef::{parent,scope,try_with_filter}', 'subscribe/context.rs: Context::{span,lookup_current,event_span,with_filter}'],
+    functions_under_contract=['tracing-subscriber/src/registry/stack.rs: SpanStack::{push,pop,iter,current}', 'registry/sharded.rs: Registry::new_span - the parent-resolution statement, extracted mechanically on every run (root / contextual / explicit parent, one reference taken on the chosen parent)', 'registry/mod.rs: Iterator for Scope, Scope::from_root, SpanRef::{parent,scope,try_with_filter}', 'subscribe/context.rs: Context::{span,lookup_current,event_span,with_filter}'],
     trusted_base=["Kani 0.68 / CBMC 6.11 / CaDiCaL; Kani's std build (nightly-2026-08-21), not the repo toolchain's", 'core::fmt::Formatter::pad stubbed to Ok(()) with -Z stubbing (panic-message formatting on infeasible error branches; no harness that uses it reads formatted text)', 'cfg(kani) thread_local! shim and once_cell::sync::Lazy contract stub (see overlay_additions)'],
     assumptions=["Registry::{enter,exit,current_span,new_span} glue sits on thread_local::ThreadLocal and the sharded_slab pool (out of Kani's reach): that the stack is per thread and that span data stays readable while a descendant lives is NOT decided", "the stub root's span table stands for DataInner {parent, filter_map}"],
-    not_covered=['tracing-error SpanTrace', 'lookup_current_filtered (needs the real Registry)', 'histories longer than 4 operations / tables larger than 4 spans'],
+    not_covered=['the part of Registry::new_span after the extracted parent-resolution statement (storing the parent in the slab entry)', 'tracing-error SpanTrace', 'lookup_current_filtered (needs the real Registry)', 'histories longer than 4 operations / tables larger than 4 spans'],
     kani=[dict(
         crate="tracing-subscriber", tls_shim_crates=["tracing-core", "tracing-subscriber"], once_cell_stub=True,
         modules=[dict(name="__verif_c06s", attach="inline", file="tracing-subscriber/src/registry/stack.rs", modpath="registry::stack", files=["stack.kani.rs"]),
                  dict(name="__verif_c06", attach="inline", file="tracing-subscriber/src/subscribe/context.rs", modpath="subscribe::context",
                       files=["../common/sub_prelude.rs", "scope.kani.rs"]),
                  dict(name="__verif_c06e", attach="inline", file="tracing-subscriber/src/registry/sharded.rs", modpath="registry::sharded",
-                      files=["../common/sub_prelude.rs", "event_parent.kani.rs"])],
+                      files=["../common/sub_prelude.rs", "event_parent.kani.rs"], generator="gen_parent_resolution")],
         append=_m.SUB_APPENDS,
     )],
     manifest=dict(technique='bounded equivalence of the real SpanStack with a spec model; bounded check of Scope/parent/Context resolution over a symbolic span table (Kani)',
